@@ -325,8 +325,6 @@ def judge_run(refd, out, rec, pe, where, stats):
             if all(asg.get(n, False) == v for n, v in ev):
                 raise Bad("rejected-consistent", "%s: attempt %s was rejected although it satisfies the evidence %s" % (
                     w, {n: v for n, v in zip(names, tup) if v}, ev))
-            if tup not in refd["support"]:
-                raise Bad("attempt-impossible-world", "%s: rejected attempt %s is not a possible world" % (w, {n: v for n, v in zip(names, tup) if v}))
     # progress: the reference says the evidence has probability pe; never accepting in m attempts has probability (1-pe)^m
     natt = sum(1 for a in rec.attempts if a["accepted"] is not None)
     if not accepted and natt > 25.0 / max(refd["pe"], 1e-6) + 10:
